@@ -105,6 +105,7 @@ CASES = [
     ("s-meta-only,p3->Y+meta", _st("s", "Y"), "store a pid that already has metadata, shared content"),
     ("s-meta-only,p3->Y+meta", {"op": "dmeta", "pid": "s", "fmt": None}, "delete_metadata all, pid without object"),
     ("s-meta-only,p3->Y+meta", _sm("s", None, "v3"), "store_metadata overwrite default format, pid without object"),
+    ("s-was-deleted,p3->Y", _tag("s", "Y"), "tag a deleted pid to a bystander's cid"),
 ]
 
 PIDS = ["s", "p2", "p3"]
